@@ -10,6 +10,10 @@ CHECKS = {
    technique="property-based testing (rapid): stateful model-based generation vs an RFC-6962 reference tree; exhaustive enumeration of honest (i,j) proofs up to a bound; mutation-based verifier soundness",
    text="Generated append/reset/sync/reopen histories of the real on-disk AHT are compared step by step with an independent reference Merkle construction (roots at every size, payloads, proofs verify); all 1<=i<=j<=n honest proofs are enumerated for n<=72 (quick) / 300 (thorough) and all htree widths 0..200/700; verifier soundness is searched with mutated and relabelled proofs over true leaves/roots (accept => claim true). Search-based: held on N generated cases, not a proof.",
    note="Trusted: SHA-256 collision resistance; the 40-line reference in internal/refmodel/merkle.go; soundness only asserted for claims whose (size, root) pair is true (no verifier can bind a false pair). Known findings K2/K2h/K3b are excluded by class and counted."),
+ "C04": dict(level="exploration", design="DESIGN.md §2 C04",
+   technique="property-based testing (rapid): stateful model-based generation on a real store vs a reference KV-history model, with generated index configurations and maintenance interleavings",
+   text="Generated histories (overwrites, logical deletes, expirations, non-indexable entries, empty/max-size values, long shared prefixes, max-length keys, up to 50 keys per tx) on a real store with generated index options (bulk size 1-8, flush/sync thresholds, node size, cache, buffered-data limit; default index or multi-indexing with prefixed + injective mapped indexes), interleaved with flush/compaction/reopen; after indexing caught up every read API (Get, GetWithFilters, GetBetween, GetWithPrefix, History, key readers with seek/end/prefix/direction/offset) is compared with the model. Search-based.",
+   note="Trusted: the reference model in internal/stx; expirations use fixed far-past/far-future instants; GetWithPrefix exclusion key only nil/first match; mapped-index history not asserted. Pinned probes keep the 6 repaired indexer/tbtree defects (F1,F9-F13) under watch."),
 }
 
 NOT_YET = "check not built yet in this session (work in progress; see DESIGN.md §2 for the planned harness)"
